@@ -88,6 +88,21 @@ def monthlen(year: int, month: int) -> int:
     return mdays[month] + (month == 2 and isleap(year))
 
 
+def days_from_civil(year: int, month: int, day: int) -> int:
+    """Return the days since 1970-01-01 in the proleptic Gregorian calendar.
+
+    Works for any signed year, year zero is 1 BCE.
+    """
+    if month <= 2:
+        year -= 1
+        month += 12
+
+    era, yoe = divmod(year, 400)
+    doy = (153 * (month - 3) + 2) // 5 + day - 1
+    doe = yoe * 365 + yoe // 4 - yoe // 100 + doy
+    return era * 146097 + doe - 719468
+
+
 def validate_date(year: int, month: int, day: int) -> None:
     """Validate the given year, month day is a valid date."""
     if not 1 <= month <= 12:
